@@ -120,8 +120,8 @@ class CallMixin:
         """Apply a callee's contract at an expression position (no effects)."""
         if con.modifies and node is not self.root_call:
             raise Unsupported("call of %s (modifies %s) in expression position" % (con.qualname, list(con.modifies)), node)
-        if self.bound:
-            raise Unsupported("contract call under a bound variable", node)
+        if self.bound and (con.modifies or isinstance(con.ret, TObj)):
+            raise Unsupported("effectful / object-valued contract call under a bound variable", node)
         bound = self.bind_args(con, args, kw, node)
         self.used_contracts.add(con.qualname)
         if hasattr(con, "ghost_defs"):
@@ -149,7 +149,12 @@ class CallMixin:
     def fresh_result(self, con):
         if con.ret == TNone:
             return NONE
-        return fresh(con.ret, "r_" + con.qualname.rsplit(".", 1)[-1], self.classes_fields())
+        base = "r_" + con.qualname.rsplit(".", 1)[-1]
+        if self.bound:
+            # under a comprehension's bound variable the result is a function of it
+            f = z3.Function(fresh_name(base), *([b.sort() for b in self.bound] + [sort_of(con.ret)]))
+            return Val(con.ret, f(*self.bound))
+        return fresh(con.ret, base, self.classes_fields())
 
     def classes_fields(self):
         return {k: v["fields"] for k, v in S.CLASSES.items()}
@@ -159,6 +164,11 @@ class CallMixin:
         pre = S.Ctx(dict(bound))
         for label, f in con.requires(pre):
             self.hazard("Requires", f, node, "%s requires[%s]" % (con.qualname, label))
+        self.effect_pre_state = st.fork()
+        for kind, fn in con.raises.items():
+            spec = fn(pre)
+            if spec is not None:
+                self.fact(st, z3.Not(spec["when"]))  # normal return excludes the raising condition
         # havoc what the callee may modify
         post_env = dict(bound)
         recv_name = next(iter(con.params))
@@ -244,7 +254,9 @@ class CallMixin:
             c = self.card(v)
             self.fact(st, c >= 0)
             x = z3.Const(fresh_name("x"), sort_of(ty.elem))
-            self.fact(st, (c == 0) == z3.Not(z3.Exists([x], z3.Select(v.t, x))))
+            w = z3.Const(fresh_name("member"), sort_of(ty.elem))
+            self.fact(st, z3.Implies(c > 0, z3.Select(v.t, w)))
+            self.fact(st, z3.Implies(c == 0, forall([x], z3.Not(z3.Select(v.t, x)), patterns=[z3.Select(v.t, x)])))
             return Val(TInt, c)
         if ty == TString:
             return Val(TInt, z3.Length(v.t))
@@ -351,6 +363,13 @@ class CallMixin:
         if isinstance(e, ast.Attribute):
             return e.attr
         raise Unsupported("class expression", e)
+
+    def b_getattr(self, node, st):
+        if len(node.args) < 2 or not (isinstance(node.args[1], ast.Constant) and isinstance(node.args[1].value, str)):
+            raise Unsupported("getattr with a computed name", node)
+        base = self.eval(node.args[0], st)
+        # the default (3rd argument) is irrelevant when the attribute is known to exist
+        return self.getattr_val(base, node.args[1].value, node, st)
 
     def b_bool(self, node, st):
         return Val(TBool, self.truthy(self.eval(node.args[0], st), node))
@@ -574,6 +593,10 @@ class CallMixin:
                                 patterns=[l_at(src.t, a)]))
         self.last_filter = dict(R=R, s=s, inv=inv, src=src, cond=cond, j=j)
         return Val(ty, R)
+
+    def e_GeneratorExp(self, node, st):
+        # A-gen: a generator argument is consumed without observable interleaving
+        return self.e_ListComp(node, st)
 
     def bind_target(self, target, val, st, node):
         if isinstance(target, ast.Name):
